@@ -74,6 +74,8 @@ type treeOpts struct {
 	hostile          bool
 	allowEmptyDir    bool
 	keyNames         bool // entries named like the JSON keys of the manifest schemas
+	siblings         bool // tracked files named like another entry plus a temp-file suffix
+	dupPair          bool // two top-level files with identical contents (one cache object for both)
 }
 
 func genTree(r *rng, depth int, to treeOpts, pool *[][]byte, s *summary) *Node {
@@ -97,6 +99,24 @@ func genTree(r *rng, depth int, to treeOpts, pool *[][]byte, s *summary) *Node {
 			n.Ents = append(n.Ents, Ent{name, sub})
 		} else {
 			n.Ents = append(n.Ents, Ent{name, nFile(genContent(r, pool))})
+		}
+	}
+	if to.dupPair && depth == 0 {
+		b := append([]byte("same bytes twice "), r.bytes(8)...)
+		n.set("aa_dup", nFile(b))
+		n.set("zz_dup", nFile(b))
+	}
+	if to.siblings {
+		for _, e := range append([]Ent{}, n.Ents...) {
+			if e.N.Kind == "f" && r.chance(1, 5) {
+				sib := e.Name + []string{".dud-link", ".part", ".tmp", "~", ".dud-link-1"}[r.intn(5)]
+				if n.get(sib) == nil {
+					n.Ents = append(n.Ents, Ent{sib, nFile(genContent(r, pool))})
+					if s != nil {
+						s.count("name:entry+temp-suffix")
+					}
+				}
+			}
 		}
 	}
 	if to.keyNames && depth <= 1 && r.chance(1, 2) {
